@@ -16,7 +16,7 @@ RULE = ("name events {declare, assign, op-assign, read, destructuring declare (l
         "diagnostic at the target, output only up to that point; 22 controls with bindable targets; non-trivial = distinct "
         "(multiset of event kinds, outcome kind, failing event kind, depth) / (expression kind, position)")
 ASSUMPTIONS = ["`x += 1` on a name holding a function is predicted as a type error (only status and 'not a name diagnostic' are checked)",
-               "object patterns with a key that evaluates to \"_\" are not generated (known finding K3 belongs to C13)",
+               "object patterns with a key that evaluates to \"_\" are not generated here (C13 generates them)",
                "the wording after `cannot bind to ` is not compared"]
 
 DIAG = re.compile(r"\At\.sd:(\d+):(\d+): (?:in '[^']*': )?(.*)")
